@@ -1,7 +1,7 @@
 #!/bin/bash
 # evaluate seeds produced in scratch worktrees: tools/eval_wt.sh c04 r2c10 ...
 for wt in "$@"; do
-  P=$(echo $wt | sed 's/^r2//' | tr a-z A-Z)
+  P=$(echo $wt | sed 's/^r[0-9]//' | tr a-z A-Z)
   for k in 1 2; do
     d=/tmp/wt/$wt/SEED$k
     [ -f $d/patch.diff ] || continue
